@@ -188,6 +188,20 @@ pub fn run_c14(ctx: &Ctx) -> Report {
                 }
             }
         }
+        // a quarter of the chains end with an error reported after the last completion: every count
+        // reported before it still reaches the client, in front of the ERR
+        let ends_with_err = rng.chance(1, 4);
+        if ends_with_err {
+            match ops.pop() {
+                Some(QOp::Finish) => ops.push(QOp::FinishOne),
+                Some(QOp::Completed(a, b)) => ops.push(QOp::CompleteOne(a, b)),
+                Some(other) => ops.push(other),
+                None => {}
+            }
+            ops.push(QOp::Error(1105, b"the next statement of the batch failed".to_vec()));
+            shape.push_str("E ");
+            rep.counters.inc("chains_ending_with_an_error");
+        }
         let cmds = vec![Cmd::prepare(b"p"), if bin { Cmd::execute(1, &[], false) } else { Cmd::query(b"q") }, Cmd::ping()];
         let scripts = vec![Script::PrepOk { id: 1, params: vec![], cols: vec![] }, Script::Q(QProg { colsets: vec![vec![], cols1.clone()], ops, on_err: OnErr::Drop })];
         let obs = run_case(&varied_case(rng, cmds, scripts));
@@ -211,8 +225,8 @@ pub fn run_c14(ctx: &Ctx) -> Report {
             rep.violations.push(viol("C14", "C14 undecodable-response".into(), format!("chained response does not decode: {:?}", dec.stop), d()));
             return;
         };
-        if parts.len() != want.len() {
-            rep.violations.push(viol("C14", "C14 chain-length".into(), format!("{} parts decoded, {} written", parts.len(), want.len()), d()));
+        if parts.len() != want.len() + ends_with_err as usize || (ends_with_err && !matches!(parts.last(), Some(Part::Err(_)))) {
+            rep.violations.push(viol("C14", "C14 chain-length".into(), format!("{} parts decoded, {} written{}", parts.len(), want.len() + ends_with_err as usize, if ends_with_err { " (the last one an ERR)" } else { "" }), d()));
             return;
         }
         for (k, (p, w)) in parts.iter().zip(want.iter()).enumerate() {
